@@ -699,7 +699,7 @@ def _parse_phase(ϕ: str | _core.MineralPhase | int) -> _core.MineralPhase:
     elif isinstance(ϕ, int):
         try:
             return _core.MineralPhase(ϕ)
-        except IndexError:
+        except ValueError:
             raise _err.ConfigError(f"invalid phase in phase assemblage: {ϕ}") from None
     raise _err.ConfigError(f"invalid phase in phase assemblage: {ϕ}") from None
 
